@@ -656,7 +656,8 @@ structure AttemptState where
   log : List String
   lateDone : Bool
 
-def stringBytes (s : String) : List Byte := s.toUTF8.toList.map (·.toNat)
+/-- the UTF-8 bytes of a Go string. -/
+def stringBytes (s : String) : List Byte := s.toList.flatMap fun c => (String.utf8EncodeChar c).map (·.toNat)
 
 def gtraceOf (sel : List Part) (tid : String) : GTrace :=
   let ss := spansOfTid (sel.flatMap (·.spans)) tid
@@ -682,23 +683,36 @@ def applyLate (t : Table) (l : Late) (selMem : Bool) : Table :=
   let t := t.write l.spans
   if l.flush && !selMem then t.flush else t
 
-/-- `flushStaged` over the batches of one merge: Decide (with its fail-open), ceiling, guard. -/
+/-- trace ids for which a keep mask says DROP. -/
+def proposedOf (ids : List String) (mask : List Bool) : List String :=
+  (ids.zip mask).filterMap fun (i, k) => if k then none else some i
+
+/-- the part written inside the first Decide call, if the case asks for one. -/
+def lateAtDecide (req : MergeReq) (selMem : Bool) (st : AttemptState) : AttemptState :=
+  match req.late with
+  | some l =>
+    if l.atDecide && !st.lateDone then { st with table := applyLate st.table l selMem, lateDone := true } else st
+  | none => st
+
+/-- one `flushStaged`: a Decide call over `ids` (with its fail-open), then ceiling and guard for
+    every proposed drop. -/
+def batchStep (cfg : GConfig) (cat : GCatalog) (sel : List Part) (req : MergeReq) (selMem : Bool)
+    (ids : List String) (st : AttemptState) (dropped : List String) : List String × AttemptState :=
+  let st1 := lateAtDecide req selMem
+    { st with log := st.log ++ ["+".intercalate ids ++ "=" ++ (batchWorst req.tab ids).toString] }
+  let proposed := proposedOf ids (evaluateChain ids.length [some (batchOutcome req.tab ids)]).1
+  let r := resolveDrops cfg cat sel proposed st1.gst st1.tracker dropped
+  (r.1, { st1 with gst := r.2.1, tracker := r.2.2 })
+
+/-- `flushStaged` over the batches of one merge. A batch without eligible traces makes no Decide call. -/
 def runBatches (cfg : GConfig) (cat : GCatalog) (sel : List Part) (req : MergeReq) (selMem : Bool) :
     List (List String) → AttemptState → List String → List String × AttemptState
   | [], st, dropped => (dropped, st)
   | ids :: rest, st, dropped =>
     if ids.isEmpty then runBatches cfg cat sel req selMem rest st dropped
     else
-      let worst := batchWorst req.tab ids
-      let st := { st with log := st.log ++ ["+".intercalate ids ++ "=" ++ worst.toString] }
-      let st := match req.late with
-        | some l => if l.atDecide && !st.lateDone then
-            { st with table := applyLate st.table l selMem, lateDone := true } else st
-        | none => st
-      let (mask, _) := evaluateChain ids.length [some (batchOutcome req.tab ids)]
-      let proposed := (ids.zip mask).filterMap fun (i, k) => if k then none else some i
-      let (dropped, gst, tr) := resolveDrops cfg cat sel proposed st.gst st.tracker dropped
-      runBatches cfg cat sel req selMem rest { st with gst := gst, tracker := tr } dropped
+      runBatches cfg cat sel req selMem rest (batchStep cfg cat sel req selMem ids st dropped).2
+        (batchStep cfg cat sel req selMem ids st dropped).1
 
 def minGen : List Part → Nat
   | [] => 0
@@ -734,11 +748,6 @@ def losslessAttempt (t : Table) (sel : List Part) (gen : Nat) (late : Option Lat
     | none => t
   t.publish selIds out osx
 
-/-- group ids of the selected parts that are eligible for evaluation. -/
-def eligibleTids (sel : List Part) (filterImmature : Bool) (frontier : Int) : List String :=
-  (sortedTids (sel.flatMap (·.spans))).filter fun tid =>
-    !filterImmature || decide (maxOfInts ((spansOfTid (sel.flatMap (·.spans)) tid).map (·.ts)) ≤ frontier)
-
 structure MergeResult where
   table : Table
   text : String
@@ -747,17 +756,31 @@ def renderResult (res : String) (log : List String) (sent rej : Nat) : String :=
   "M(" ++ res ++ " dec=" ++ (if log.isEmpty then "-" else ";".intercalate log) ++
     " sent=" ++ toString sent ++ " rej=" ++ toString rej ++ ")"
 
+/-- group ids of the selected parts that are eligible for evaluation. -/
+def eligibleTids (sel : List Part) (filterImmature : Bool) (frontier : Int) : List String :=
+  (sortedTids (sel.flatMap (·.spans))).filter fun tid =>
+    !filterImmature || decide (maxOfInts ((spansOfTid (sel.flatMap (·.spans)) tid).map (·.ts)) ≤ frontier)
+
+/-- are the selected parts memory parts (the flusher's own merge)? -/
+def selMemOf (sel : List Part) : Bool :=
+  match sel with
+  | p :: _ => p.mem
+  | [] => false
+
+/-- how the staging budget groups the eligible traces into Decide calls (an input: all in one
+    call, or one trace per call). -/
+def batchesOf (sel : List Part) (req : MergeReq) (filterImmature : Bool) (frontier : Int) : List (List String) :=
+  if req.eachBatch then (eligibleTids sel filterImmature frontier).map (fun x => [x])
+  else [eligibleTids sel filterImmature frontier]
+
 /-- the filtered attempt (`mergeParts` with the filter): which trace ids end up in the drop set,
     and the attempt state afterwards (table possibly extended by a part written inside Decide). -/
 def firstAttempt (t : Table) (sel : List Part) (req : MergeReq) (cfg : GConfig) (cat : GCatalog)
     (filterImmature : Bool) (frontier : Int) : List String × AttemptState :=
-  let selMem := match sel with | p :: _ => p.mem | [] => false
-  let t1 := { t with curPartID := t.curPartID + 1 }
-  let elig := eligibleTids sel filterImmature frontier
-  let batches := if req.eachBatch then elig.map (fun x => [x]) else [elig]
-  let budget := if req.dropSetBudget = 0 then defaultDropSetBudget else req.dropSetBudget
-  runBatches cfg cat sel req selMem batches
-    { table := t1, gst := { pinned := true }, tracker := { budget := budget }, log := [], lateDone := false } []
+  runBatches cfg cat sel req (selMemOf sel) (batchesOf sel req filterImmature frontier)
+    { table := { t with curPartID := t.curPartID + 1 }, gst := { pinned := true },
+      tracker := { budget := if req.dropSetBudget = 0 then defaultDropSetBudget else req.dropSetBudget },
+      log := [], lateDone := false } []
 
 /-- `traceFragmentGuardSession.revalidate`: the request built from the current snapshot `cur`
     against the pinned base snapshot `base`. -/
@@ -777,7 +800,7 @@ def fenceLate (t : Table) (late : Option Late) (selMem : Bool) : Table :=
     filtered attempt, pre-publication revalidation, introducer epoch check, lossless retry. -/
 def filteredMerge (mc : FilterOracle) (t : Table) (sel : List Part) (req : MergeReq) (cfg : GConfig) (cat : GCatalog)
     (filterImmature : Bool) (frontier : Int) (gen : Nat) : MergeResult :=
-  let selMem := match sel with | p :: _ => p.mem | [] => false
+  let selMem := selMemOf sel
   let selIds := sel.map (·.id)
   let id := t.curPartID + 1
   let att := firstAttempt t sel req cfg cat filterImmature frontier
@@ -805,7 +828,7 @@ def filteredMerge (mc : FilterOracle) (t : Table) (sel : List Part) (req : Merge
 
 /-- a merge with no filter at all (no sampler, immature selection, guard session unavailable). -/
 def unfilteredMerge (t : Table) (sel : List Part) (req : MergeReq) (gen : Nat) : MergeResult :=
-  let selMem := match sel with | p :: _ => p.mem | [] => false
+  let selMem := selMemOf sel
   -- a late part "inside Decide" never happens (no Decide call); one at the fence does
   let late := match req.late with
     | some l => if l.atDecide then none else some l
@@ -823,22 +846,30 @@ def hotMerge (mc : FilterOracle) (t : Table) (sel : List Part) (req : MergeReq) 
     | some (cfg, cat) => filteredMerge mc t sel req cfg cat true frontier gen
 
 /-- `runFinalizeRoundNamed`: engine-side selection of cooled, not yet finalized file parts. -/
+def finalizeSelection (t : Table) (req : MergeReq) : List Part :=
+  t.parts.filter fun p =>
+    !p.mem && decide (p.count ≥ 1) && decide (p.gen < t.finalizeGen + 1) &&
+      decide (p.max ≤ satSub req.now (if req.finalizeGrace > t.grace then req.finalizeGrace else t.grace))
+
+/-- `runFinalizeRoundNamed`: one finalize round (filter without the maturity test, output
+    stamped with the next finalize generation). -/
 def finalizeRound (mc : FilterOracle) (t : Table) (req : MergeReq) : MergeResult :=
-  let maturity := if req.finalizeGrace > t.grace then req.finalizeGrace else t.grace
-  let gNext := t.finalizeGen + 1
-  let sel := t.parts.filter fun p =>
-    !p.mem && decide (p.count ≥ 1) && decide (p.gen < gNext) && decide (p.max ≤ satSub req.now maturity)
-  if req.finalizeGrace < 0 ∨ t.grace ≤ 0 ∨ sel.isEmpty then { table := t, text := renderResult "noop" [] 0 0 }
-  else match guardSession mc t sel with
+  if req.finalizeGrace < 0 ∨ t.grace ≤ 0 ∨ (finalizeSelection t req).isEmpty then
+    { table := t, text := renderResult "noop" [] 0 0 }
+  else match guardSession mc t (finalizeSelection t req) with
     | none => { table := t, text := renderResult "noop" [] 0 0 }
     | some (cfg, cat) =>
-      let r := filteredMerge mc t sel req cfg cat false 0 gNext
-      { r with table := { r.table with finalizeGen := gNext } }
+      { table := { (filteredMerge mc t (finalizeSelection t req) req cfg cat false 0 (t.finalizeGen + 1)).table with
+                   finalizeGen := t.finalizeGen + 1 },
+        text := (filteredMerge mc t (finalizeSelection t req) req cfg cat false 0 (t.finalizeGen + 1)).text }
 
 /-- resolve a selection token list against the snapshot in part-id order; a mixed selection is
     reduced to its file parts. -/
-def sortPartsById (ps : List Part) : List Part :=
-  ps.mergeSort fun a b => decide (a.id ≤ b.id)
+def insertById (p : Part) : List Part → List Part
+  | [] => [p]
+  | q :: qs => if p.id ≤ q.id then p :: q :: qs else q :: insertById p qs
+
+def sortPartsById (ps : List Part) : List Part := ps.foldr insertById []
 
 inductive Sel | all | files | mems | idx (is : List Nat)
 
@@ -860,5 +891,37 @@ def mergeOp (mc : FilterOracle) (t : Table) (s : Sel) (req : MergeReq) : MergeRe
       -- the engine's snapshot order matters for the catalogue; keep `sel` in snapshot order
       let selSnap := t.parts.filter fun p => sel.any fun q => q.ident == p.ident
       hotMerge mc t selSnap req
+
+/-! ## 6. observations used by the property statements -/
+
+/-- every span physically stored for `tid` (what a complete query by trace id must return). -/
+def Table.spansOf (t : Table) (tid : String) : List Span := partsSpansOf t.parts tid
+
+/-- every secondary-index row carrying `tid`. -/
+def Table.entriesOf (t : Table) (tid : String) : List SEntry :=
+  (t.sidx.flatMap (·.2)).filter (·.tid == tid)
+
+/-- distinct part ids. -/
+def IdsDistinct (ps : List Part) : Prop := ps.Pairwise fun a b => a.id ≠ b.id
+
+/-- structural invariant of a table (part ids are unique and below the id counter; the
+    introducer's epoch counter is ahead of the published snapshot). -/
+structure Table.WF (t : Table) : Prop where
+  distinct : IdsDistinct t.parts
+  bound : ∀ p ∈ t.parts, p.id ≤ t.curPartID
+  epoch : t.epoch < t.nextEpoch
+
+/-- part time bounds cover every span of the part. -/
+def BoundsSound (ps : List Part) : Prop := ∀ p ∈ ps, ∀ s ∈ p.spans, p.min ≤ s.ts ∧ s.ts ≤ p.max
+
+/-- the trace-id filter has no false negatives (property C08 for the Bloom filter). -/
+def NoFalseNegatives (mc : FilterOracle) : Prop := ∀ (p : Part) (s : Span), s ∈ p.spans → mc p s.tid = true
+
+/-- the deployment contract the guard relies on (docs/design/trace-fragment-sampling-guard.md):
+    fragments of one trace are never farther apart than the merge grace, in event time. -/
+def GapBounded (grace : Int) (spans : List Span) : Prop :=
+  ∀ s ∈ spans, ∀ s' ∈ spans, s.tid = s'.tid → s'.ts ≤ s.ts + grace
+
+def Int64Spans (spans : List Span) : Prop := ∀ s ∈ spans, minI64 ≤ s.ts ∧ s.ts ≤ maxI64
 
 end Banyan.C13
